@@ -58,7 +58,7 @@ fn single_rewrites(s: &Style) -> Vec<(&'static str, Style, bool)> {
         v.push(("attr-order", Style { reverse_attrs: s.reverse_attrs, ..c.clone() }, false));
     }
     if s.xml_decl != c.xml_decl {
-        v.push(("xml-decl", Style { xml_decl: s.xml_decl, ..c.clone() }, false));
+        v.push(("xml-decl", Style { xml_decl: s.xml_decl, decl_form: s.decl_form, ..c.clone() }, false));
     }
     if s.expand_empty != c.expand_empty {
         v.push(("empty-leaf-as-start-end", Style { expand_empty: s.expand_empty, ..c.clone() }, true));
